@@ -31,3 +31,57 @@ func VH_C09_PEChecksumSplit() {
 	vhAssert(bytes.Equal(got, want), "checksum-independent-of-write-split")
 	vhReach("compared") // vh:require compared
 }
+
+// a reader that delivers its data in arbitrary short reads
+type vhChunkReader struct {
+	data []byte
+	pos  int
+}
+
+func (r *vhChunkReader) Read(p []byte) (int, error) {
+	rem := len(r.data) - r.pos
+	if rem == 0 {
+		return 0, vhEOF
+	}
+	max := len(p)
+	if rem < max {
+		max = rem
+	}
+	if max == 0 {
+		return 0, nil
+	}
+	n := vhConcretize(vhInt("read-size", 1, max), 16)
+	copy(p, r.data[r.pos:r.pos+n])
+	r.pos += n
+	return n, nil
+}
+
+func vhNewHasher(page int) *imageHasher {
+	return &imageHasher{hashFunc: vhSHA256, imageDigest: vhSHA256.New(), doPageHash: true,
+		zeroPage: make([]byte, page), pageBuf: make([]byte, page)}
+}
+
+// H09.pehash: the page hashes and the image digest of a section do not depend
+// on how the upload stream is cut into reads (page size scaled to 4 bytes:
+// the hasher takes its page size from its buffers).
+func VH_C09_PESectionShortReads() {
+	const page = 4
+	n := vhConcretize(vhInt("section-bytes", 1, 9), 16)
+	data := vhBytes("section", n)
+	ptr := vhU32("pointer-to-raw-data")
+	sh := vhSection(uint32(n), ptr)
+	one := vhNewHasher(page)
+	err := one.section(bytes.NewReader(data), sh)
+	vhAssert(err == nil, "whole-read-ok")
+	want, wantPages, _ := one.finish()
+	h := vhNewHasher(page)
+	err = h.section(&vhChunkReader{data: data}, sh)
+	vhAssert(err == nil, "short-reads-ok")
+	got, gotPages, _ := h.finish()
+	vhAssert(bytes.Equal(got, want), "image-digest-independent-of-read-sizes")
+	vhAssert(bytes.Equal(gotPages, wantPages), "page-hashes-independent-of-read-sizes")
+	// layout of the table: (offset32 || digest) per page, then a terminator
+	pages := (n + page - 1) / page
+	vhAssert(len(wantPages) == (pages+1)*(4+32), "one-entry-per-page-plus-terminator")
+	vhReach("compared") // vh:require compared
+}
